@@ -14,6 +14,12 @@ object path per execution: the fields as written, every index with the value its
 * a chain that does not start at a name (`f( s.a ).y`, `concat( s.a, s.b )[0:4]`) is no object path: executing it
   executes its parts;
 * the target of an assignment statement (`=`, `@=`, `<<=`, a `for` target) is assigned, not read.
+
+Contents: the access semantics `acc` and the matching of names against paths; unfolding lemmas for `chain` / `visit`;
+`chain_matches` (the name `_get_full_name` returns matches every path the chain can denote); completeness of the visit
+(`visit_complete`, `body_complete`; induction on the size of the node); deciding `Matches`; which children are visited;
+independence of the representation of `self.closure` / `self.globals`; soundness (`visit_sound`, `body_sound`); executions
+as traces (`Exec`, `exec_acc`); from matched paths to covered objects (`look_covers`, `lookName_covers`).
 -/
 namespace PV.AstRW
 
@@ -152,9 +158,7 @@ def isSlice : Node → Bool
 
 /-- the visits `_get_full_name` makes for one index expression, and the marker -/
 def idxEv (env : Env) (op : Op) (i : Node) : Except Err (List Ev × Idx) :=
-  match i with
-  | .call f args kws => idxStep env (.call f args kws) (fun _ => pure []) (fun _ => visitList env op args)
-  | i => idxStep env i (fun _ => visit env op i) (fun _ => pure [])
+  idxStep env i (fun _ => visit env op i)
 
 theorem chain_sub_eq (env : Env) (op : Op) (strip : Bool) (v i : Node) (c : Ctx) (hi : isSlice i = false) :
     chain env op strip (.sub v i c) = (do
@@ -275,15 +279,10 @@ theorem idxEv_marker {env : Env} {σ : Valuation} {ρ : REnv} (hA : Agree env σ
         obtain ⟨v, h1, h2⟩ := (hA x).2 hc hg
         simp [selMatch, hk v h1, h2]
       · simp [selMatch]
-  | attr v a c => simp only [idxEv, idxStep, bind_ok] at h; obtain ⟨_, _, h⟩ := h; simp at h; obtain ⟨_, rfl⟩ := h; simp [selMatch]
-  | sub v a c => simp only [idxEv, idxStep, bind_ok] at h; obtain ⟨_, _, h⟩ := h; simp at h; obtain ⟨_, rfl⟩ := h; simp [selMatch]
-  | call f a kw => simp only [idxEv, idxStep, bind_ok] at h; obtain ⟨_, _, h⟩ := h; simp at h; obtain ⟨_, rfl⟩ := h; simp [selMatch]
-  | node kd cs =>
-    simp only [idxEv, idxStep] at h
-    split at h
-    · simp only [bind_ok] at h; obtain ⟨_, _, h⟩ := h; simp at h; obtain ⟨_, rfl⟩ := h; simp [selMatch]
-    · simp at h; obtain ⟨_, rfl⟩ := h; simp [selMatch]
-  | _ => simp [idxEv, idxStep] at h; obtain ⟨_, rfl⟩ := h; simp [selMatch]
+  | _ =>
+    simp only [idxEv, idxStep, bind_ok] at h
+    obtain ⟨_, _, h⟩ := h
+    simp at h; obtain ⟨_, rfl⟩ := h; simp [selMatch]
 
 /-- the name returned for a chain matches, step by step, every concrete path the chain can denote -/
 theorem chain_matches {env : Env} {σ : Valuation} {ρ : REnv} (hA : Agree env σ ρ) {op : Op} :
@@ -363,65 +362,23 @@ theorem chain_rooted {env : Env} {op : Op} : ∀ (v : Node) {strip : Bool} {e : 
   | .for_ .., _, e, r, sl, hr, h => by simp [rooted] at hr
   | .node .., _, e, r, sl, hr, h => by simp [rooted] at hr
 
-mutual
-/-- an expression without attribute, subscript and call performs no access -/
-theorem quiet_no_acc {ρ : REnv} : ∀ (n : Node) (e : Access), quiet n = true → ¬ acc ρ n e
-  | .nil, e, _ => by simp [acc]
-  | .name .., e, _ => by simp [acc]
-  | .num _, e, _ => by simp [acc]
-  | .str, e, _ => by simp [acc]
-  | .attr .., e, h => by simp [quiet] at h
-  | .sub .., e, h => by simp [quiet] at h
-  | .call .., e, h => by simp [quiet] at h
-  | .slice a b c, e, h => by
-    simp [quiet] at h
-    simp only [acc]
-    rintro (h1 | h1 | h1)
-    · exact quiet_no_acc a e h.1.1 h1
-    · exact quiet_no_acc b e h.1.2 h1
-    · exact quiet_no_acc c e h.2 h1
-  | .assign .., e, h => by simp [quiet] at h
-  | .aug .., e, h => by simp [quiet] at h
-  | .for_ .., e, h => by simp [quiet] at h
-  | .node _ cs, e, h => by
-    simp [quiet] at h
-    simp only [acc]
-    exact quietList_no_acc cs e h
-theorem quietList_no_acc {ρ : REnv} : ∀ (ns : List Node) (e : Access), quietList ns = true → ¬ accList ρ ns e
-  | [], e, _ => by simp [accList]
-  | n :: ns, e, h => by
-    simp [quietList] at h
-    simp only [accList]
-    rintro (h1 | h1)
-    · exact quiet_no_acc n e h.1 h1
-    · exact quietList_no_acc ns e h.2 h1
-end
-
 /-- the condition of `supChain` on one index expression -/
-def supIdx (sc : Bool) : Node → Bool
-  | .slice .. => false
-  | .call f args kws => !sc && quiet f && quietList kws && supportedList sc args
-  | .num _ => true
-  | .name .. => true
-  | .attr a b c => supported sc (.attr a b c)
-  | .sub a b c => supported sc (.sub a b c)
-  | .node k cs => if visitedKind k then supportedList sc cs else quietList cs
-  | i => quiet i
+def supIdx (i : Node) : Bool := !isSlice i && supported i
 
-theorem supChain_sub (sc : Bool) (v i : Node) (c : Ctx) :
-    supChain sc (.sub v i c) = (supIdx sc i && supChain sc v) := by
-  cases i <;> simp [supChain, supIdx]
+theorem supChain_sub (v i : Node) (c : Ctx) :
+    supChain (.sub v i c) = (supIdx i && supChain v) := by
+  cases i <;> simp [supChain, supIdx, isSlice]
 
-theorem supIdx_not_slice {sc : Bool} {i : Node} (h : supIdx sc i = true) : isSlice i = false := by
-  cases i <;> simp [supIdx] at h <;> simp [isSlice]
+theorem supIdx_not_slice {i : Node} (h : supIdx i = true) : isSlice i = false := by
+  simp only [supIdx, Bool.and_eq_true, Bool.not_eq_true'] at h; exact h.1
 
-theorem supChain_not_sliceSub {sc : Bool} {v : Node} (h : supChain sc v = true) : isSliceSub v = false := by
+theorem supChain_not_sliceSub {v : Node} (h : supChain v = true) : isSliceSub v = false := by
   cases v with
   | sub v i c => cases i <;> simp [supChain] at h <;> simp [isSliceSub]
   | _ => simp [isSliceSub]
 
-theorem supported_sub (sc : Bool) (v i : Node) (c : Ctx) (hi : isSlice i = false) :
-    supported sc (.sub v i c) = ((if rooted v then supChain sc v else supported sc v) && supported sc i) := by
+theorem supported_sub (v i : Node) (c : Ctx) (hi : isSlice i = false) :
+    supported (.sub v i c) = ((if rooted v then supChain v else supported v) && supported i) := by
   cases i <;> simp [isSlice] at hi <;> simp [supported]
 
 
@@ -455,76 +412,32 @@ theorem Recorded.mono {σ : Valuation} {a b : List Ev} {e : Access} (h : Recorde
   obtain ⟨r, hr, h1, h2⟩ := h
   exact ⟨r, hs r hr, h1, h2⟩
 
-/-- calls are only claimed under the call clause of `supported` -/
-def CallOk (sc : Bool) (e : Access) : Prop := e.kind = .fc → sc = true
-
 section
 variable {env : Env} {σ : Valuation} {ρ : REnv}
 
 def PVisit (env : Env) (σ : Valuation) (ρ : REnv) (n : Node) : Prop :=
-  ∀ (op : Op) (sc : Bool) (evs : List Ev), supported sc n = true → visit env op n = .ok evs →
-    ∀ e, acc ρ n e → CallOk sc e → Recorded σ evs e
+  ∀ (op : Op) (evs : List Ev), supported n = true → visit env op n = .ok evs →
+    ∀ e, acc ρ n e → Recorded σ evs e
 def PChain (env : Env) (σ : Valuation) (ρ : REnv) (v : Node) : Prop :=
-  ∀ (op : Op) (sc : Bool) (ev : List Ev) (r : Option ObjName) (sl : List Idx), supChain sc v = true →
-    chain env op false v = .ok (ev, r, sl) → ∀ e, accIdx ρ v e → CallOk sc e → Recorded σ ev e
+  ∀ (op : Op) (ev : List Ev) (r : Option ObjName) (sl : List Idx), supChain v = true →
+    chain env op false v = .ok (ev, r, sl) → ∀ e, accIdx ρ v e → Recorded σ ev e
 def PList (env : Env) (σ : Valuation) (ρ : REnv) (ns : List Node) : Prop :=
-  ∀ (op : Op) (sc : Bool) (evs : List Ev), supportedList sc ns = true → visitList env op ns = .ok evs →
-    ∀ e, accList ρ ns e → CallOk sc e → Recorded σ evs e
+  ∀ (op : Op) (evs : List Ev), supportedList ns = true → visitList env op ns = .ok evs →
+    ∀ e, accList ρ ns e → Recorded σ evs e
 
 theorem idxEv_complete {i : Node} (hPi : PVisit env σ ρ i)
-    (hPa : ∀ f args kws, i = .call f args kws → PList env σ ρ args)
-    {op : Op} {sc : Bool} {e1 : List Ev} {idx : Idx} (hs : supIdx sc i = true) (h : idxEv env op i = .ok (e1, idx))
-    {e : Access} (ha : acc ρ i e) (hc : CallOk sc e) : Recorded σ e1 e := by
+    {op : Op} {e1 : List Ev} {idx : Idx} (hs : supIdx i = true) (h : idxEv env op i = .ok (e1, idx))
+    {e : Access} (ha : acc ρ i e) : Recorded σ e1 e := by
+  have hsup : supported i = true := by
+    simp only [supIdx, Bool.and_eq_true] at hs; exact hs.2
   cases i with
-  | nil => simp [acc] at ha
   | name => simp [acc] at ha
   | num => simp [acc] at ha
-  | str => simp [acc] at ha
-  | slice => simp [supIdx] at hs
-  | assign => simp [supIdx, quiet] at hs
-  | aug => simp [supIdx, quiet] at hs
-  | for_ => simp [supIdx, quiet] at hs
-  | attr v a c =>
+  | _ =>
     simp only [idxEv, idxStep, bind_ok] at h
     obtain ⟨evs, hv, h⟩ := h
     simp at h; obtain ⟨rfl, _⟩ := h
-    exact hPi op sc _ (by simpa [supIdx] using hs) hv e ha hc
-  | sub v a c =>
-    simp only [idxEv, idxStep, bind_ok] at h
-    obtain ⟨evs, hv, h⟩ := h
-    simp at h; obtain ⟨rfl, _⟩ := h
-    exact hPi op sc _ (by simpa [supIdx] using hs) hv e ha hc
-  | node k cs =>
-    simp only [supIdx] at hs
-    simp only [idxEv, idxStep] at h
-    by_cases hk : visitedKind k = true
-    · have hk' : k = .binOp ∨ k = .unaryOp ∨ k = .ifExp := by simpa [visitedKind] using hk
-      rw [if_pos hk'] at h
-      simp only [bind_ok] at h
-      obtain ⟨evs, hv, h⟩ := h
-      simp at h; obtain ⟨rfl, _⟩ := h
-      rw [if_pos hk] at hs
-      exact hPi op sc _ (by simpa [supported] using hs) hv e ha hc
-    · rw [if_neg hk] at hs
-      simp only [acc] at ha
-      exact absurd ha (quietList_no_acc cs e hs)
-  | call f args kws =>
-    simp only [supIdx, Bool.and_eq_true, Bool.not_eq_true'] at hs
-    obtain ⟨⟨⟨hsc, hqf⟩, hqk⟩, hsa⟩ := hs
-    simp only [idxEv, idxStep, bind_ok] at h
-    obtain ⟨evs, hv, h⟩ := h
-    simp at h; obtain ⟨rfl, _⟩ := h
-    simp only [acc] at ha
-    rcases ha with ha | ha | ha
-    · cases f with
-      | name x c =>
-        simp [rooted, accIdx, cpath] at ha
-        have : e.kind = .fc := by rw [ha]
-        have := hc this
-        simp [hsc] at this
-      | _ => first | (simp [quiet] at hqf; done) | (simp only [rooted] at ha; exact absurd ha (quiet_no_acc _ e hqf))
-    · exact hPa f args kws rfl op sc _ hsa hv e ha hc
-    · exact absurd ha (quietList_no_acc kws e hqk)
+    exact hPi op _ hsup hv e ha
 
 end
 
@@ -559,7 +472,7 @@ theorem record_ok {c : Ctx} {op : Op} {nm : ObjName} {p : List Ev} (h : record c
 /-- the case `Attribute` of `PVisit` -/
 theorem pvisit_attr (hA : Agree env σ ρ) {v : Node} (a : String) (c : Ctx) (hv : PVisit env σ ρ v) (hc : PChain env σ ρ v) :
     PVisit env σ ρ (.attr v a c) := by
-  intro op sc evs hs h e ha hok
+  intro op evs hs h e ha
   simp only [visit, bind_ok] at h
   obtain ⟨⟨e1, r, sl⟩, h1, h⟩ := h
   simp only [supported] at hs
@@ -570,7 +483,7 @@ theorem pvisit_attr (hA : Agree env σ ρ) {v : Node} (a : String) (c : Ctx) (hv
     simp only [bind_ok] at h
     obtain ⟨g, hg, h⟩ := h
     simp at h; subst h
-    exact (hv op sc g (by simpa using hs) hg e ha hok).mono (by intro x hx; simp [hx])
+    exact (hv op g (by simpa using hs) hg e ha).mono (by intro x hx; simp [hx])
   · simp only [hr, if_true] at hs ha
     obtain ⟨nm, rfl⟩ := chain_rooted v hr h1
     simp only [bind_ok] at h
@@ -581,18 +494,18 @@ theorem pvisit_attr (hA : Agree env σ ρ) {v : Node} (a : String) (c : Ctx) (hv
     · obtain ⟨q, hq, rfl⟩ := hp
       refine ⟨⟨accKind c, nm ++ [.fld a], op⟩, by simp, rfl, ?_⟩
       exact (chain_matches hA v h1 q hq).append (.cons (by simp [stepMatch]) .nil)
-    · exact (hc op sc e1 _ sl hs h1 e ha hok).mono (by intro x hx; simp [hx])
+    · exact (hc op e1 _ sl hs h1 e ha).mono (by intro x hx; simp [hx])
 
 
 /-- the case `Subscript` with an index that is not a slice -/
 theorem pvisit_sub (hA : Agree env σ ρ) {v i : Node} (c : Ctx) (hi : isSlice i = false)
     (hv : PVisit env σ ρ v) (hc : PChain env σ ρ v) (hPi : PVisit env σ ρ i) :
     PVisit env σ ρ (.sub v i c) := by
-  intro op sc evs hs h e ha hok
+  intro op evs hs h e ha
   rw [visit_sub_eq _ _ _ _ _ hi] at h
   simp only [bind_ok] at h
   obtain ⟨⟨e1, idx⟩, h1, ⟨e2, r, sl⟩, h2, h⟩ := h
-  rw [supported_sub _ _ _ _ hi] at hs
+  rw [supported_sub _ _ _ hi] at hs
   simp only [Bool.and_eq_true] at hs
   obtain ⟨hsv, hsi⟩ := hs
   simp only [acc] at ha
@@ -603,8 +516,8 @@ theorem pvisit_sub (hA : Agree env σ ρ) {v i : Node} (c : Ctx) (hi : isSlice i
     obtain ⟨g, hg, g', hg', h⟩ := h
     simp at h; subst h
     rcases ha with ha | ha
-    · exact (hv op sc g (by simpa using hsv) hg e ha hok).mono (by intro x hx; simp [hx])
-    · exact (hPi op sc g' hsi hg' e ha hok).mono (by intro x hx; simp [hx])
+    · exact (hv op g (by simpa using hsv) hg e ha).mono (by intro x hx; simp [hx])
+    · exact (hPi op g' hsi hg' e ha).mono (by intro x hx; simp [hx])
   · simp only [hr, if_true] at hsv ha
     obtain ⟨nm, rfl⟩ := chain_rooted v hr h2
     simp only [bind_ok] at h
@@ -615,18 +528,18 @@ theorem pvisit_sub (hA : Agree env σ ρ) {v i : Node} (c : Ctx) (hi : isSlice i
     · obtain ⟨q, k, hq, hk, rfl⟩ := (cpath_sub hi).1 hp
       refine ⟨⟨accKind c, nm ++ [.sel idx], op⟩, by simp, rfl, ?_⟩
       exact (chain_matches hA v h2 q hq).append (.cons (show stepMatch σ (.sel idx) (.sel (.idx k)) from idxEv_marker hA h1 hk) .nil)
-    · exact (hc op sc e2 _ sl hsv h2 e ha hok).mono (by intro x hx; simp [hx])
-    · exact (hPi op sc e' hsi he' e ha hok).mono (by intro x hx; simp [hx])
+    · exact (hc op e2 _ sl hsv h2 e ha).mono (by intro x hx; simp [hx])
+    · exact (hPi op e' hsi he' e ha).mono (by intro x hx; simp [hx])
 
 /-- the case `Subscript` whose outermost index is a slice -/
 theorem pvisit_subslice (hA : Agree env σ ρ) {v lo up st : Node} (c : Ctx)
     (hv : PVisit env σ ρ v) (hc : PChain env σ ρ v) (hPs : PVisit env σ ρ (.slice lo up st)) :
     PVisit env σ ρ (.sub v (.slice lo up st) c) := by
-  intro op sc evs hs h e ha hok
+  intro op evs hs h e ha
   rw [visit.eq_6] at h
   simp only [bind_ok] at h
   obtain ⟨⟨e1, r, sl⟩, h1, r', hr', h⟩ := h
-  have hss : supported sc (.slice lo up st) = true ∧ (if rooted v then (!isSliceSub v && supChain sc v) else supported sc v) = true := by
+  have hss : supported (.slice lo up st) = true ∧ (if rooted v then (!isSliceSub v && supChain v) else supported v) = true := by
     simp only [supported, Bool.and_eq_true] at hs ⊢
     exact ⟨⟨⟨hs.1.1.2, hs.1.2⟩, hs.2⟩, hs.1.1.1⟩
   obtain ⟨hsl, hsv⟩ := hss
@@ -639,8 +552,8 @@ theorem pvisit_subslice (hA : Agree env σ ρ) {v lo up st : Node} (c : Ctx)
     obtain ⟨g, hg, g', hg', h⟩ := h
     simp at h; subst h
     rcases ha with ha | ha
-    · exact (hv op sc g (by simpa using hsv) hg e ha hok).mono (by intro x hx; simp [hx])
-    · exact (hPs op sc g' hsl hg' e (by simpa [acc] using ha) hok).mono (by intro x hx; simp [hx])
+    · exact (hv op g (by simpa using hsv) hg e ha).mono (by intro x hx; simp [hx])
+    · exact (hPs op g' hsl hg' e (by simpa [acc] using ha)).mono (by intro x hx; simp [hx])
   · simp only [hr, if_true, Bool.and_eq_true, Bool.not_eq_true'] at hsv ha
     obtain ⟨hns, hsv⟩ := hsv
     rw [chain_strip_irrel v hns] at h1
@@ -669,7 +582,7 @@ theorem pvisit_subslice (hA : Agree env σ ρ) {v lo up st : Node} (c : Ctx)
         have hp := record_ok hp; subst hp
         refine ⟨⟨accKind c, nm ++ [.sel .star], op⟩, by simp, rfl, ?_⟩
         exact hm.append (.cons (by simp [stepMatch, selMatch]) .nil)
-    · have hrec : Recorded σ e1 e := hc op sc e1 _ [] hsv h1 e ha hok
+    · have hrec : Recorded σ e1 e := hc op e1 _ [] hsv h1 e ha
       cases r' with
       | none =>
         simp only [bind_ok] at h
@@ -687,19 +600,19 @@ theorem pvisit_subslice (hA : Agree env σ ρ) {v lo up st : Node} (c : Ctx)
         simp only [bind_ok] at h
         obtain ⟨g, hg, g', hg', h⟩ := h
         simp at h; subst h
-        exact (hPs op sc g' hsl hg' e ha' hok).mono (by intro x hx; simp [hx])
+        exact (hPs op g' hsl hg' e ha').mono (by intro x hx; simp [hx])
       | some nm' =>
         simp only [bind_ok] at h
         obtain ⟨p, hp, e', he', h⟩ := h
         simp at h; subst h
-        exact (hPs op sc e' hsl he' e ha' hok).mono (by intro x hx; simp [hx])
+        exact (hPs op e' hsl he' e ha').mono (by intro x hx; simp [hx])
 
 
 /-- the case `Call` -/
 theorem pvisit_call (hA : Agree env σ ρ) {f : Node} {args kws : List Node}
     (hf : PVisit env σ ρ f) (hc : PChain env σ ρ f) (ha : PList env σ ρ args) (hk : PList env σ ρ kws) :
     PVisit env σ ρ (.call f args kws) := by
-  intro op sc evs hs h e hacc hok
+  intro op evs hs h e hacc
   simp only [visit, bind_ok] at h
   obtain ⟨⟨e1, r, sl⟩, h1, r', hr', g, hg, a, hargs, k, hkws, h⟩ := h
   simp at h; subst h
@@ -711,7 +624,7 @@ theorem pvisit_call (hA : Agree env σ ρ) {f : Node} {args kws : List Node}
     · simp only [hr] at hsf hacc
       have := chain_not_rooted f hr h1; subst this
       simp [attachSlices] at hr'; subst hr'
-      exact (hf op sc g (by simpa using hsf) hg e hacc hok).mono (by intro x hx; simp [hx])
+      exact (hf op g (by simpa using hsf) hg e hacc).mono (by intro x hx; simp [hx])
     · simp only [hr, if_true] at hsf hacc
       rw [chain_strip_irrel f (supChain_not_sliceSub hsf)] at h1
       have := chain_false_sl f h1; subst this
@@ -720,20 +633,19 @@ theorem pvisit_call (hA : Agree env σ ρ) {f : Node} {args kws : List Node}
       simp at hg; subst hg
       rcases hacc with ⟨p, hp, rfl⟩ | hacc
       · exact ⟨⟨.fc, nm, .none⟩, by simp, rfl, chain_matches hA f h1 p hp⟩
-      · exact (hc op sc e1 _ [] hsf h1 e hacc hok).mono (by intro x hx; simp [hx])
-  · exact (ha op sc a hsa hargs e hacc hok).mono (by intro x hx; simp [hx])
-  · exact (hk op sc k hsk hkws e hacc hok).mono (by intro x hx; simp [hx])
+      · exact (hc op e1 _ [] hsf h1 e hacc).mono (by intro x hx; simp [hx])
+  · exact (ha op a hsa hargs e hacc).mono (by intro x hx; simp [hx])
+  · exact (hk op k hsk hkws e hacc).mono (by intro x hx; simp [hx])
 
 theorem pchain_attr {v : Node} (a : String) (c : Ctx) (hc : PChain env σ ρ v) : PChain env σ ρ (.attr v a c) := by
-  intro op sc ev r sl hs h e ha hok
+  intro op ev r sl hs h e ha
   simp only [chain, bind_ok] at h
   obtain ⟨⟨e2, r2, s2⟩, h2, h⟩ := h
   simp at h; obtain ⟨rfl, _, _⟩ := h
-  exact hc op sc _ r2 s2 (by simpa [supChain] using hs) h2 e (by simpa [accIdx] using ha) hok
+  exact hc op _ r2 s2 (by simpa [supChain] using hs) h2 e (by simpa [accIdx] using ha)
 
-theorem pchain_sub {v i : Node} (c : Ctx) (hc : PChain env σ ρ v) (hPi : PVisit env σ ρ i)
-    (hPa : ∀ f args kws, i = .call f args kws → PList env σ ρ args) : PChain env σ ρ (.sub v i c) := by
-  intro op sc ev r sl hs h e ha hok
+theorem pchain_sub {v i : Node} (c : Ctx) (hc : PChain env σ ρ v) (hPi : PVisit env σ ρ i) : PChain env σ ρ (.sub v i c) := by
+  intro op ev r sl hs h e ha
   rw [supChain_sub] at hs
   simp only [Bool.and_eq_true] at hs
   obtain ⟨hsi, hsv⟩ := hs
@@ -743,86 +655,86 @@ theorem pchain_sub {v i : Node} (c : Ctx) (hc : PChain env σ ρ v) (hPi : PVisi
   simp at h; obtain ⟨rfl, _, _⟩ := h
   simp only [accIdx] at ha
   rcases ha with ha | ha
-  · exact (hc op sc _ r2 s2 hsv h2 e ha hok).mono (by intro x hx; simp [hx])
-  · exact (idxEv_complete hPi hPa hsi h1 ha hok).mono (by intro x hx; simp [hx])
+  · exact (hc op _ r2 s2 hsv h2 e ha).mono (by intro x hx; simp [hx])
+  · exact (idxEv_complete hPi hsi h1 ha).mono (by intro x hx; simp [hx])
 
 theorem pchain_other {v : Node} (h : ∀ e, ¬ accIdx ρ v e) : PChain env σ ρ v := by
-  intro op sc ev r sl _ _ e ha _
+  intro op ev r sl _ _ e ha
   exact absurd ha (h e)
 
 theorem plist_nil : PList env σ ρ [] := by
-  intro op sc evs _ _ e ha _
+  intro op evs _ _ e ha
   simp [accList] at ha
 
 theorem plist_cons {n : Node} {ns : List Node} (hn : PVisit env σ ρ n) (hns : PList env σ ρ ns) : PList env σ ρ (n :: ns) := by
-  intro op sc evs hs h e ha hok
+  intro op evs hs h e ha
   simp only [visitList, bind_ok] at h
   obtain ⟨a, h1, b, h2, h⟩ := h
   simp at h; subst h
   simp only [supportedList, Bool.and_eq_true] at hs
   simp only [accList] at ha
   rcases ha with ha | ha
-  · exact (hn op sc a hs.1 h1 e ha hok).mono (by intro x hx; simp [hx])
-  · exact (hns op sc b hs.2 h2 e ha hok).mono (by intro x hx; simp [hx])
+  · exact (hn op a hs.1 h1 e ha).mono (by intro x hx; simp [hx])
+  · exact (hns op b hs.2 h2 e ha).mono (by intro x hx; simp [hx])
 
 theorem pvisit_slice {a b c : Node} (ha : PVisit env σ ρ a) (hb : PVisit env σ ρ b) (hc : PVisit env σ ρ c) :
     PVisit env σ ρ (.slice a b c) := by
-  intro op sc evs hs h e hacc hok
+  intro op evs hs h e hacc
   simp only [visit, bind_ok] at h
   obtain ⟨x, h1, y, h2, z, h3, h⟩ := h
   simp at h; subst h
   simp only [supported, Bool.and_eq_true] at hs
   simp only [acc] at hacc
   rcases hacc with hacc | hacc | hacc
-  · exact (ha op sc x hs.1.1 h1 e hacc hok).mono (by intro x hx; simp [hx])
-  · exact (hb op sc y hs.1.2 h2 e hacc hok).mono (by intro x hx; simp [hx])
-  · exact (hc op sc z hs.2 h3 e hacc hok).mono (by intro x hx; simp [hx])
+  · exact (ha op x hs.1.1 h1 e hacc).mono (by intro x hx; simp [hx])
+  · exact (hb op y hs.1.2 h2 e hacc).mono (by intro x hx; simp [hx])
+  · exact (hc op z hs.2 h3 e hacc).mono (by intro x hx; simp [hx])
 
 theorem pvisit_assign {ts : List Node} {v : Node} (ht : PList env σ ρ ts) (hv : PVisit env σ ρ v) :
     PVisit env σ ρ (.assign ts v) := by
-  intro op sc evs hs h e hacc hok
+  intro op evs hs h e hacc
   simp only [visit, bind_ok] at h
   obtain ⟨x, h1, y, h2, h⟩ := h
   simp at h; subst h
   simp only [supported, Bool.and_eq_true] at hs
   simp only [acc] at hacc
   rcases hacc with hacc | hacc
-  · exact (ht op sc x hs.1 h1 e hacc hok).mono (by intro x hx; simp [hx])
-  · exact (hv op sc y hs.2 h2 e hacc hok).mono (by intro x hx; simp [hx])
+  · exact (ht op x hs.1 h1 e hacc).mono (by intro x hx; simp [hx])
+  · exact (hv op y hs.2 h2 e hacc).mono (by intro x hx; simp [hx])
 
 theorem pvisit_aug {t v : Node} (o : String) (ht : PVisit env σ ρ t) (hv : PVisit env σ ρ v) :
     PVisit env σ ρ (.aug t o v) := by
-  intro op sc evs hs h e hacc hok
+  intro op evs hs h e hacc
   simp only [visit, bind_ok] at h
   obtain ⟨x, h1, y, h2, h⟩ := h
   simp at h; subst h
   simp only [supported, Bool.and_eq_true] at hs
   simp only [acc] at hacc
   rcases hacc with hacc | hacc
-  · exact (ht _ sc x hs.1 h1 e hacc hok).mono (by intro x hx; simp [hx])
-  · exact (hv _ sc y hs.2 h2 e hacc hok).mono (by intro x hx; simp [hx])
+  · exact (ht _ x hs.1 h1 e hacc).mono (by intro x hx; simp [hx])
+  · exact (hv _ y hs.2 h2 e hacc).mono (by intro x hx; simp [hx])
 
 theorem pvisit_for {t it : Node} {body orelse : List Node} (ht : PVisit env σ ρ t) (hi : PVisit env σ ρ it)
     (hb : PList env σ ρ body) (ho : PList env σ ρ orelse) : PVisit env σ ρ (.for_ t it body orelse) := by
-  intro op sc evs hs h e hacc hok
+  intro op evs hs h e hacc
   simp only [visit, bind_ok] at h
   obtain ⟨x, h1, y, h2, z, h3, w, h4, h⟩ := h
   simp at h; subst h
   simp only [supported, Bool.and_eq_true] at hs
   simp only [acc] at hacc
   rcases hacc with hacc | hacc | hacc | hacc
-  · exact (ht _ sc x hs.1.1.1 h1 e hacc hok).mono (by intro x hx; simp [hx])
-  · exact (hi _ sc y hs.1.1.2 h2 e hacc hok).mono (by intro x hx; simp [hx])
-  · exact (hb _ sc z hs.1.2 h3 e hacc hok).mono (by intro x hx; simp [hx])
-  · exact (ho _ sc w hs.2 h4 e hacc hok).mono (by intro x hx; simp [hx])
+  · exact (ht _ x hs.1.1.1 h1 e hacc).mono (by intro x hx; simp [hx])
+  · exact (hi _ y hs.1.1.2 h2 e hacc).mono (by intro x hx; simp [hx])
+  · exact (hb _ z hs.1.2 h3 e hacc).mono (by intro x hx; simp [hx])
+  · exact (ho _ w hs.2 h4 e hacc).mono (by intro x hx; simp [hx])
 
 theorem pvisit_node {cs : List Node} (k : Kind) (hcs : PList env σ ρ cs) : PVisit env σ ρ (.node k cs) := by
-  intro op sc evs hs h e hacc hok
+  intro op evs hs h e hacc
   simp only [visit] at h
-  exact hcs op sc evs (by simpa [supported] using hs) h e (by simpa [acc] using hacc) hok
+  exact hcs op evs (by simpa [supported] using hs) h e (by simpa [acc] using hacc)
 
 theorem pvisit_leaf {n : Node} (h : ∀ e, ¬ acc ρ n e) : PVisit env σ ρ n := by
-  intro op sc evs _ _ e ha _
+  intro op evs _ _ e ha
   exact absurd ha (h e)
 
 
@@ -882,11 +794,7 @@ theorem complete_aux (hA : Agree env σ ρ) : ∀ k : Nat,
         exact pchain_attr a c (ihc v (by omega))
       | sub v i c =>
         simp only [nsize] at h
-        refine pchain_sub c (ihc v (by omega)) (ihv i (by omega)) ?_
-        intro f args kws hi
-        subst hi
-        simp only [nsize] at h
-        exact ihl args (by omega)
+        exact pchain_sub c (ihc v (by omega)) (ihv i (by omega))
       | _ => exact pchain_other (by simp [accIdx])
     · intro ns h
       cases ns with
@@ -926,22 +834,22 @@ theorem Agree.body {env : Env} (h : Agree env σ ρ) : ∀ (body : List Node), A
   | nil => trivial
   | cons s ss ih => exact ⟨h.enter s, ih (h.enter s)⟩
 
-theorem body_complete {sc : Bool} : ∀ (body : List Node) {env : Env} {evs : List Ev}, AgreeBody σ ρ env body →
-    supportedBody sc body = true → extractBody env body = .ok evs →
-    ∀ e, accList ρ body e → CallOk sc e → Recorded σ evs e := by
+theorem body_complete : ∀ (body : List Node) {env : Env} {evs : List Ev}, AgreeBody σ ρ env body →
+    supportedBody body = true → extractBody env body = .ok evs →
+    ∀ e, accList ρ body e → Recorded σ evs e := by
   intro body
   induction body with
   | nil => intro env evs _ _ _ e ha; simp [accList] at ha
   | cons s ss ih =>
-    intro env evs hA hs h e ha hok
+    intro env evs hA hs h e ha
     simp only [extractBody, bind_ok] at h
     obtain ⟨a, h1, b, h2, h⟩ := h
     simp at h; subst h
     simp only [supportedBody, supportedList, Bool.and_eq_true] at hs
     simp only [accList] at ha
     rcases ha with ha | ha
-    · exact (visit_complete hA.1 s .none sc a hs.1 h1 e ha hok).mono (by intro x hx; simp [hx])
-    · exact (ih hA.2 hs.2 h2 e ha hok).mono (by intro x hx; simp [hx])
+    · exact (visit_complete hA.1 s .none a hs.1 h1 e ha).mono (by intro x hx; simp [hx])
+    · exact (ih hA.2 hs.2 h2 e ha).mono (by intro x hx; simp [hx])
 
 
 end
@@ -1053,19 +961,16 @@ theorem bound_congr (h : EnvEq e1 e2) (n : Node) : bound? e1 n = bound? e2 n := 
 theorem knownSlice_congr (h : EnvEq e1 e2) (lo up : Node) : knownSlice e1 lo up = knownSlice e2 lo up := by
   simp only [knownSlice, bound_congr h]
 
-theorem idxStep_congr (h : EnvEq e1 e2) (i : Node) (w a : Unit → Except Err (List Ev)) :
-    idxStep e1 i w a = idxStep e2 i w a := by
+theorem idxStep_congr (h : EnvEq e1 e2) (i : Node) (w : Unit → Except Err (List Ev)) :
+    idxStep e1 i w = idxStep e2 i w := by
   cases i <;> simp [idxStep, nameIdx_congr h]
 
 def QVisit (e1 e2 : Env) (n : Node) : Prop := ∀ op, visit e1 op n = visit e2 op n
 def QChain (e1 e2 : Env) (n : Node) : Prop := ∀ op strip, chain e1 op strip n = chain e2 op strip n
 def QList (e1 e2 : Env) (ns : List Node) : Prop := ∀ op, visitList e1 op ns = visitList e2 op ns
 
-theorem idxEv_congr (h : EnvEq e1 e2) {i : Node} (hv : QVisit e1 e2 i)
-    (ha : ∀ f args kws, i = .call f args kws → QList e1 e2 args) (op : Op) : idxEv e1 op i = idxEv e2 op i := by
-  cases i with
-  | call f args kws => simp only [idxEv]; rw [idxStep_congr h, ha f args kws rfl op]
-  | _ => simp only [idxEv]; rw [idxStep_congr h, hv op]
+theorem idxEv_congr (h : EnvEq e1 e2) {i : Node} (hv : QVisit e1 e2 i) (op : Op) : idxEv e1 op i = idxEv e2 op i := by
+  simp only [idxEv]; rw [idxStep_congr h, hv op]
 
 theorem congr_aux (h : EnvEq e1 e2) : ∀ k : Nat,
     (∀ n, nsize n ≤ k → QVisit e1 e2 n) ∧ (∀ n, nsize n ≤ k → QChain e1 e2 n) ∧ (∀ ns, nsizeList ns ≤ k → QList e1 e2 ns) := by
@@ -1081,11 +986,6 @@ theorem congr_aux (h : EnvEq e1 e2) : ∀ k : Nat,
       | cons n ns => simp [nsizeList] at hn
   | succ k ih =>
     obtain ⟨ihv, ihc, ihl⟩ := ih
-    have hcall : ∀ i, nsize i ≤ k → ∀ f args kws, i = .call f args kws → QList e1 e2 args := by
-      intro i hi f args kws hie
-      subst hie
-      simp only [nsize] at hi
-      exact ihl args (by omega)
     refine ⟨?_, ?_, ?_⟩
     · intro n hn op
       cases n with
@@ -1100,7 +1000,7 @@ theorem congr_aux (h : EnvEq e1 e2) : ∀ k : Nat,
         simp only [nsize] at hn
         cases hi : isSlice i
         · rw [visit_sub_eq _ _ _ _ _ hi, visit_sub_eq _ _ _ _ _ hi,
-            idxEv_congr h (ihv i (by omega)) (hcall i (by omega)) op, ihc v (by omega) op false, ihv v (by omega) op,
+            idxEv_congr h (ihv i (by omega)) op, ihc v (by omega) op false, ihv v (by omega) op,
             ihv i (by omega) op]
         · cases i <;> simp [isSlice] at hi
           rename_i lo up st
@@ -1134,7 +1034,7 @@ theorem congr_aux (h : EnvEq e1 e2) : ∀ k : Nat,
         simp only [nsize] at hn
         cases hi : isSlice i
         · rw [chain_sub_eq _ _ _ _ _ _ hi, chain_sub_eq _ _ _ _ _ _ hi,
-            idxEv_congr h (ihv i (by omega)) (hcall i (by omega)) op, ihc v (by omega) op false]
+            idxEv_congr h (ihv i (by omega)) op, ihc v (by omega) op false]
         · cases i <;> simp [isSlice] at hi
           rw [chain.eq_1, chain.eq_1, ihc v (by omega) op true, knownSlice_congr h]
       | _ => simp [chain]
@@ -1251,16 +1151,8 @@ theorem idxEv_idx {env : Env} {op : Op} {i : Node} {e1 : List Ev} {idx : Idx} (h
   cases i with
   | num n => simp [idxEv, idxStep] at h; simp [idxMarker, h.2]
   | name x c => simp [idxEv, idxStep] at h; simp [idxMarker, h.2]
-  | attr v a c => simp only [idxEv, idxStep, bind_ok] at h; obtain ⟨_, _, h⟩ := h; simp at h; simp [idxMarker, h.2]
-  | sub v a c => simp only [idxEv, idxStep, bind_ok] at h; obtain ⟨_, _, h⟩ := h; simp at h; simp [idxMarker, h.2]
-  | call f a kw => simp only [idxEv, idxStep, bind_ok] at h; obtain ⟨_, _, h⟩ := h; simp at h; simp [idxMarker, h.2]
-  | node kd cs =>
-    simp only [idxEv, idxStep] at h
-    split at h
-    · simp only [bind_ok] at h; obtain ⟨_, _, h⟩ := h; simp at h; simp [idxMarker, h.2]
-    · simp at h; simp [idxMarker, h.2]
   | slice => simp [isSlice] at hi
-  | _ => simp [idxEv, idxStep] at h; simp [idxMarker, h.2]
+  | _ => simp only [idxEv, idxStep, bind_ok] at h; obtain ⟨_, _, h⟩ := h; simp at h; simp [idxMarker, h.2]
 
 theorem pname_sub {env : Env} {v i : Node} {c : Ctx} (hi : isSlice i = false) :
     pname env (.sub v i c) = (pname env v).map (· ++ [.sel (idxMarker env i)]) := by
@@ -1371,27 +1263,14 @@ def RList (env : Env) (ns : List Node) : Prop :=
 
 theorem subs_self (n : Node) : n ∈ subs n := by cases n <;> simp [subs]
 
-theorem idxEv_sound {i : Node} (hv : RVisit env i) (ha : ∀ f args kws, i = .call f args kws → RList env args)
+theorem idxEv_sound {i : Node} (hv : RVisit env i)
     {op : Op} {e1 : List Ev} {idx : Idx} (h : idxEv env op i = .ok (e1, idx)) : ∀ ev, ev ∈ e1 → Src env (subs i) ev := by
   cases i with
-  | attr v a c =>
+  | num n => simp [idxEv, idxStep] at h; obtain ⟨rfl, _⟩ := h; intro ev hev; simp at hev
+  | name x c => simp [idxEv, idxStep] at h; obtain ⟨rfl, _⟩ := h; intro ev hev; simp at hev
+  | _ =>
     simp only [idxEv, idxStep, bind_ok] at h; obtain ⟨evs, h1, h⟩ := h; simp at h; obtain ⟨rfl, _⟩ := h
     exact hv op _ h1
-  | sub v a c =>
-    simp only [idxEv, idxStep, bind_ok] at h; obtain ⟨evs, h1, h⟩ := h; simp at h; obtain ⟨rfl, _⟩ := h
-    exact hv op _ h1
-  | call f args kws =>
-    simp only [idxEv, idxStep, bind_ok] at h; obtain ⟨evs, h1, h⟩ := h; simp at h; obtain ⟨rfl, _⟩ := h
-    intro ev hev
-    exact (ha f args kws rfl op _ h1 ev hev).mono (by intro x hx; simp [subs, hx])
-  | node kd cs =>
-    simp only [idxEv, idxStep] at h
-    split at h
-    · simp only [bind_ok] at h; obtain ⟨evs, h1, h⟩ := h; simp at h; obtain ⟨rfl, _⟩ := h
-      exact hv op _ h1
-    · simp at h; obtain ⟨rfl, _⟩ := h; intro ev hev; simp at hev
-  | _ => simp [idxEv, idxStep] at h; obtain ⟨rfl, _⟩ := h; intro ev hev; simp at hev
-
 
 theorem src_record {c : Ctx} {op : Op} {nm : ObjName} {p : List Ev} {m : Node} {ns : List Node}
     (hp : record c op nm = .ok p) (hm : m ∈ ns) (hc : ctxOf m = some c) (hn : topName env m = some nm) :
@@ -1426,13 +1305,13 @@ theorem rvisit_attr {v : Node} (a : String) (c : Ctx) (hv : RVisit env v) (hc : 
       simp [topName, pname, chain_pname v h1]
 
 theorem rvisit_sub {v i : Node} (c : Ctx) (hi : isSlice i = false) (hv : RVisit env v) (hc : RChain env v)
-    (hPi : RVisit env i) (hPa : ∀ f args kws, i = .call f args kws → RList env args) : RVisit env (.sub v i c) := by
+    (hPi : RVisit env i) : RVisit env (.sub v i c) := by
   intro op evs h ev hev
   rw [visit_sub_eq _ _ _ _ _ hi] at h
   simp only [bind_ok] at h
   obtain ⟨⟨e1, idx⟩, h1, ⟨e2, r, sl⟩, h2, h⟩ := h
   have he1 : ∀ ev, ev ∈ e1 → Src env (subs (.sub v i c)) ev := fun ev hev =>
-    (idxEv_sound hPi hPa h1 ev hev).mono (by intro x hx; simp [subs, hx])
+    (idxEv_sound hPi h1 ev hev).mono (by intro x hx; simp [subs, hx])
   have he2 : ∀ ev, ev ∈ e2 → Src env (subs (.sub v i c)) ev := fun ev hev =>
     (hc op false e2 r sl h2 ev hev).mono (by intro x hx; simp [subs, hx])
   have hvi : ∀ g, visit env op i = .ok g → ∀ ev, ev ∈ g → Src env (subs (.sub v i c)) ev := fun g hg ev hev =>
@@ -1519,8 +1398,7 @@ theorem rchain_attr {v : Node} (a : String) (c : Ctx) (hc : RChain env v) : RCha
   simp at h; obtain ⟨rfl, _, _⟩ := h
   exact (hc op false _ r2 s2 h2 ev hev).mono (by intro x hx; simp [subs, hx])
 
-theorem rchain_sub {v i : Node} (c : Ctx) (hc : RChain env v) (hPi : RVisit env i)
-    (hPa : ∀ f args kws, i = .call f args kws → RList env args) : RChain env (.sub v i c) := by
+theorem rchain_sub {v i : Node} (c : Ctx) (hc : RChain env v) (hPi : RVisit env i) : RChain env (.sub v i c) := by
   intro op strip e r sl h ev hev
   cases hi : isSlice i
   · rw [chain_sub_eq _ _ _ _ _ _ hi] at h
@@ -1528,7 +1406,7 @@ theorem rchain_sub {v i : Node} (c : Ctx) (hc : RChain env v) (hPi : RVisit env 
     obtain ⟨⟨e1, idx⟩, h1, ⟨e2, r2, s2⟩, h2, h⟩ := h
     simp at h; obtain ⟨rfl, _, _⟩ := h
     rcases List.mem_append.1 hev with hev | hev
-    · exact (idxEv_sound hPi hPa h1 ev hev).mono (by intro x hx; simp [subs, hx])
+    · exact (idxEv_sound hPi h1 ev hev).mono (by intro x hx; simp [subs, hx])
     · exact (hc op false _ r2 s2 h2 ev hev).mono (by intro x hx; simp [subs, hx])
   · cases i <;> simp [isSlice] at hi
     cases strip
@@ -1571,11 +1449,6 @@ theorem sound_aux : ∀ k : Nat,
       | cons n ns => simp [nsizeList] at h
   | succ k ih =>
     obtain ⟨ihv, ihc, ihl⟩ := ih
-    have hcall : ∀ i, nsize i ≤ k → ∀ f args kws, i = .call f args kws → RList env args := by
-      intro i hi f args kws hie
-      subst hie
-      simp only [nsize] at hi
-      exact ihl args (by omega)
     refine ⟨?_, ?_, ?_⟩
     · intro n h
       cases n with
@@ -1589,7 +1462,7 @@ theorem sound_aux : ∀ k : Nat,
       | sub v i c =>
         simp only [nsize] at h
         cases hi : isSlice i
-        · exact rvisit_sub c hi (ihv v (by omega)) (ihc v (by omega)) (ihv i (by omega)) (hcall i (by omega))
+        · exact rvisit_sub c hi (ihv v (by omega)) (ihc v (by omega)) (ihv i (by omega))
         · cases i <;> simp [isSlice] at hi
           exact rvisit_subslice c (ihv v (by omega)) (ihc v (by omega)) (ihv _ (by omega))
       | slice a b c =>
@@ -1646,7 +1519,7 @@ theorem sound_aux : ∀ k : Nat,
         exact rchain_attr a c (ihc v (by omega))
       | sub v i c =>
         simp only [nsize] at h
-        exact rchain_sub c (ihc v (by omega)) (ihv i (by omega)) (hcall i (by omega))
+        exact rchain_sub c (ihc v (by omega)) (ihv i (by omega))
       | _ =>
         intro op strip e r sl hc ev hev
         simp [chain] at hc
